@@ -14,6 +14,8 @@ package main
 //	       y<tok>           same ciphertext, unsupported frame type 7
 //	       j                one stray byte (only as the last token)
 //	       t<tok>           the frame cut one byte short (only as the last token)
+//	       z<type>.<n>      an INSERTED frame nobody sealed: header with frame type <type> (0 data, 1 final, 7 unknown) declaring
+//	                        n bytes of ciphertext, followed by n zero bytes (n = 0: the five bytes 00 00 00 00 00)
 //
 // Answer: ok <chunk ids, e.g. A0.A1.A2> | err <missing-final|bad-type|decrypt|final-plaintext|trailing|short-frame|setup>
 
@@ -175,6 +177,18 @@ func (r *c20FramesRunner) Step(t []string, raw string) string {
 			stream.WriteByte(0xff)
 			continue
 		}
+		if strings.HasPrefix(tok, "z") {
+			var typ, n int
+			if _, err := fmt.Sscanf(tok, "z%d.%d", &typ, &n); err != nil || typ < 0 || typ > 255 || n < 0 || n > 1<<20 {
+				return "bad-op"
+			}
+			var hdr [5]byte
+			hdr[0] = byte(typ)
+			binary.BigEndian.PutUint32(hdr[1:], uint32(n))
+			stream.Write(hdr[:])
+			stream.Write(make([]byte, n))
+			continue
+		}
 		mod := byte(0)
 		if len(tok) == 3 {
 			mod, tok = tok[0], tok[1:]
@@ -276,6 +290,27 @@ func (c20FramesSuite) Gen(rng *Rng, tier string, w *bufio.Writer, stats *Stats) 
 		}
 	}
 	flush("named-readers")
+	// frame-level insertions: a frame nobody sealed, of every type and of declared length 0, 1, 15 (< tag), 16 (tag
+	// only), 17, 64, at every frame boundary of the honest streams, under every reader behaviour
+	for _, honest := range []struct{ hdr, seq string }{{"A", honestA}, {"B", honestB}} {
+		toks := strings.Fields(honest.seq)
+		for pos := 0; pos <= len(toks); pos++ {
+			for _, typ := range []int{0, 1, 7} {
+				for _, n := range []int{0, 1, 15, 16, 17, 64} {
+					ins := append(append(append([]string{}, toks[:pos]...), fmt.Sprintf("z%d.%d", typ, n)), toks[pos:]...)
+					ops = append(ops, fmt.Sprintf("frames %s R %s", honest.hdr, strings.Join(ins, " ")))
+					if n == 0 || thorough {
+						for _, beh := range c20Behaviours[1:] {
+							ops = append(ops, fmt.Sprintf("framesr %s %s R %s", beh, honest.hdr, strings.Join(ins, " ")))
+						}
+					}
+					stats.Inc("gen.inserted_frames")
+				}
+			}
+		}
+	}
+	ops = append(ops, "frames A R z0.0", "frames A R z0.0 z0.0 a0 a1 a2 af", "frames A R a0 z0.0 z0.0 z0.0 a1 a2 af", "frames A R a0 a1 a2 z1.0", "frames A R z1.0")
+	flush("inserted")
 	// exhaustive: every sequence of base frames up to length L under header A with the right key
 	L := 4
 	if thorough {
@@ -337,6 +372,11 @@ func (c20FramesSuite) Gen(rng *Rng, tier string, w *bufio.Writer, stats *Stats) 
 				}
 				toks = append(toks, tok)
 			}
+		}
+		if rng.Chance(1, 6) {
+			j := rng.Intn(len(toks) + 1)
+			ins := fmt.Sprintf("z%d.%d", Pick(rng, []int{0, 0, 0, 1, 7}), Pick(rng, []int{0, 0, 1, 15, 16, 40}))
+			toks = append(toks[:j], append([]string{ins}, toks[j:]...)...)
 		}
 		switch rng.Intn(8) {
 		case 0:
